@@ -97,26 +97,43 @@ Definition var_of_means (ts : list tree) : Q := sumf (dev2 (avg ts)) ts / nQ ts.
 
 (* ---- ONE surrogate object used repeatedly (fit / predict / set_params / warm start / refilled query buffer).
    The code keeps no state between calls besides estimators_ and the constructor parameters, so the state of the
-   model is (min_variance, oracle values of the current trees at the current query point).  Operations that change
-   what the oracle says carry the new oracle values. ---- *)
+   model is (min_variance, the hyper-parameter n_estimators, oracle values of the trees CURRENTLY in estimators_ at the
+   current query point).  The hyper-parameter and the fitted trees may disagree (set_params(n_estimators=...) on a fitted
+   forest - the warm-start protocol before the next fit -, estimators_ pruned or merged by hand): predict uses
+   len(estimators_), never the hyper-parameter.  Operations that change what the oracle says carry the new oracle values. ---- *)
 Inductive op :=
 | OPredict (r : request)        (* predict(X), predict(X, return_std=True), predict(X, True, True) *)
 | ORefit (ts : list tree)       (* fit() again on the same object: the trees are replaced *)
 | OWarm (extra : list tree)     (* warm_start=True, larger n_estimators, fit(): estimators_ is EXTENDED IN PLACE *)
 | OSetMinVar (minv : Q)         (* set_params(min_variance=...) / attribute assignment *)
 | ORequery (ts : list tree)     (* the caller refills its query buffer in place: the same trees seen at another point *)
-| OReorder (ts : list tree).    (* n_jobs changed: the threads take the lock in another order *)
+| OReorder (ts : list tree)     (* n_jobs changed: the threads take the lock in another order *)
+| OSetNEst (n : nat)            (* set_params(n_estimators=n) WITHOUT fitting: only the hyper-parameter changes *)
+| ODrop (i : nat)               (* del estimators_[i] by hand *)
+| OMerge (extra : list tree).   (* estimators_ += other_forest.estimators_ by hand *)
 
-Definition state := (Q * list tree)%type.
+Definition state := (Q * nat * list tree)%type.
+Definition st_minv (s : state) : Q := fst (fst s).
+Definition st_nest (s : state) : nat := snd (fst s).
+Definition st_trees (s : state) : list tree := snd s.
+
+Fixpoint drop_nth {A} (i : nat) (l : list A) : list A :=
+  match l with
+  | [] => []
+  | x :: r => match i with O => r | S j => x :: drop_nth j r end
+  end.
 
 Definition step (s : state) (o : op) : state * list (list Q) :=
   match o with
-  | OPredict r => (s, [predict r (fst s) (snd s)])
-  | ORefit ts => ((fst s, ts), [])
-  | OWarm extra => ((fst s, snd s ++ extra), [])
-  | OSetMinVar minv => ((minv, snd s), [])
-  | ORequery ts => ((fst s, ts), [])
-  | OReorder ts => ((fst s, ts), [])
+  | OPredict r => (s, [predict r (st_minv s) (st_trees s)])
+  | ORefit ts => ((st_minv s, st_nest s, ts), [])
+  | OWarm extra => ((st_minv s, (length (st_trees s) + length extra)%nat, st_trees s ++ extra), [])
+  | OSetMinVar minv => ((minv, st_nest s, st_trees s), [])
+  | ORequery ts => ((st_minv s, st_nest s, ts), [])
+  | OReorder ts => ((st_minv s, st_nest s, ts), [])
+  | OSetNEst n => ((st_minv s, n, st_trees s), [])
+  | ODrop i => ((st_minv s, st_nest s, drop_nth i (st_trees s)), [])
+  | OMerge extra => ((st_minv s, st_nest s, st_trees s ++ extra), [])
   end.
 
 Fixpoint run (s : state) (ops : list op) : state * list (list Q) :=
